@@ -178,7 +178,11 @@ func RunDetach(lg *rec.Log, sc DetachScenario, seed int64) []rec.Ev {
 		}
 		return it == -1
 	}
+	var termSeen int32 // the consumer has finished handling the terminal notification
 	consume := func(k string, v int, ctx context.Context) {
+		if k != "N" {
+			defer atomic.StoreInt32(&termSeen, 1)
+		}
 		lg.Add(rec.Ev{E: "consB", K: k, V: v, B: ctx == noCtx || ctxOK(ctx, k, v)})
 		atomic.AddInt64(&progress, 1)
 		switch sc.Profile {
@@ -408,6 +412,12 @@ func RunDetach(lg *rec.Log, sc DetachScenario, seed int64) []rec.Ev {
 	// let the consumer side drain what was handed over (quiescence: no event for 25 ms)
 	drain = true
 	blocked(25 * time.Millisecond)
+	if sc.Unsub == "" && sc.End != "" {
+		// nothing cut the stream: the terminal must arrive; a quiet period is no proof under machine load, so wait for it (bounded)
+		for k := 0; k < 60000 && atomic.LoadInt32(&termSeen) == 0; k++ {
+			time.Sleep(50 * time.Microsecond)
+		}
+	}
 	if s := getSub(); s != nil {
 		s.Unsubscribe()
 	}
